@@ -11,6 +11,7 @@ Directive comments in it drive everything:
   // @attr file=<path in repo> anchor=<text of the fn header, e.g. "fn pc1("> [nth=1] :: <attribute text>
         insert `#[cfg_attr(kani, <attribute text>)]` on the line before the anchored item
         (pure insertion; anchor must match exactly once unless nth given)
+  // @crateattr <inner attribute text, e.g. recursion_limit = "1024">   (inserted as #![cfg_attr(kani, ...)] at the top of lib.rs)
   // @config name=<cfg> [features=a,b] [rustflags="--cfg x"] [no_default_features=1]
   // @ob name=<harness fn> props=C05,C20 [tier=quick|thorough] [kind=contract|lemma|frame|bounded|exhaustive|...]
   //     [solver=cadical|kissat|minisat|z3|cvc5] [timeout=<s>] [cfg=<config name>] [fn=<real function(s) under contract>]
@@ -61,6 +62,7 @@ class Module:
         self.name = "__vp_" + re.sub(r"\W", "_", path.stem)
         self.attrs = []         # dicts: file, anchor, nth, text
         self.configs = {}
+        self.crateattrs = []
         self.obs = []
         self.kind = "kani"
         self.parse()
@@ -89,6 +91,8 @@ class Module:
                 head, _, text = rest.partition("::")
                 kv = parse_kv(head)
                 self.attrs.append(dict(file=kv.get("file"), anchor=kv["anchor"], nth=int(kv.get("nth", "0")), text=text.strip()))
+            elif kind == "crateattr":
+                self.crateattrs.append(rest.strip())
             elif kind == "config":
                 kv = parse_kv(rest)
                 self.configs[kv["name"]] = kv
@@ -212,6 +216,13 @@ class Scratch:
                 with open(self.src / f, "a") as fh:
                     fh.write("\n" + "\n".join(ts) + "\n")
                     inserted += len(ts)
+            # crate-level attributes requested by modules (e.g. recursion_limit for harnesses with many stubs): inserted
+            # as the first line of the crate root, under cfg(kani)
+            cattrs = sorted({a for m in mods if m.crate == crate for a in m.crateattrs})
+            root = self.src / crate_dir(crate) / "src" / "lib.rs"
+            if cattrs and root.exists():
+                root.write_text("".join(f"#![cfg_attr(kani, {a})]\n" for a in cattrs) + root.read_text())
+                inserted += len(cattrs)
             # bcref dependency (reference algorithms) for cfg(kani) builds only
             ct = self.src / crate_dir(crate) / "Cargo.toml"
             if ct.exists() and (VERIF / "refs" / "Cargo.toml").exists():
@@ -353,6 +364,9 @@ def run_kani_group(scratch, crate, cfg, obs, jobs, solver_override=None, extra_t
         out = (e.stdout or "") + "\n" + (e.stderr or "") if isinstance(e.stdout, str) else ""
         rc = -9
     wall = time.time() - t0
+    if os.environ.get("VP_LOGDIR"):
+        os.makedirs(os.environ["VP_LOGDIR"], exist_ok=True)
+        Path(os.environ["VP_LOGDIR"], f"kani-{crate}-{cfg}{tag}-{int(t0)}.log").write_text(" ".join(cmd) + "\n" + out)
     parsed = parse_kani_output(out)
     results = {}
     compile_error = None
